@@ -68,20 +68,40 @@ static long sweep_value(uint32_t i)
     switch (i % 6) { case 0: return v; case 1: return v - 1; case 2: return v + 1; case 3: return -v; case 4: return -v + 1; default: return -v - 1; }
 }
 #define NSIZES 8
-static const int SIZES[NSIZES] = { 1, 2, 4, 8, 3, 5, 16, 24 };
+/* ... and elements past 256 and past 4096 bytes (memcpy path of cstl_swap, the vector's scratch slot as large as an element):
+ * their own cases (C_BIG) with few elements; the key is not at offset 0 in most of these layouts (set_layout) */
+#define NBIGSIZES 7
+#define NALLSIZES (NSIZES + NBIGSIZES)
+static const int SIZES[NALLSIZES] = { 1, 2, 4, 8, 3, 5, 16, 24, 257, 300, 511, 513, 1000, 4097, 5000 };
 enum { P_ARRAY, P_VECTOR };
 static const char *const pathname[2] = { "array", "vector" };
 /* the same entry points driven with self-referential small-buffer elements (see the section further down) */
 static const char *const sref_pathname[2] = { "array-selfref", "vector-selfref" };
 static int sref_mode;
 
-static int sel_ctr[NSEL], size_ctr[NSIZES], pat_ctr[16];
+static int sel_ctr[NSEL], size_ctr[NALLSIZES], pat_ctr[16];
 
 static int keybytes(int size) { return size >= 8 ? 4 : size >= 4 ? 2 : 1; }
 static int tagbytes(int size) { int t = size - keybytes(size); return t > 4 ? 4 : t; }
 /* number of distinct logical keys a record of this size can carry */
 static uint32_t maxkeys(int size) { int kb = keybytes(size); return kb == 1 ? 127 : kb == 2 ? 32767 : 1000000000u; }
 static uint32_t maxstored(int size) { int kb = keybytes(size); return kb == 1 ? 255 : kb == 2 ? 65535 : 0x7fffffffu; }
+/* where key and tag live in a record of the current bench (bench_open): offset 0 / behind the key for the small sizes,
+ * odd offsets, the last bytes of the element, on and behind the 256- and 4096-byte marks for the big ones */
+static int g_koff, g_toff;
+static void set_layout(int size)
+{
+    switch (size) {
+    case 300:  g_koff = 7; break;
+    case 511:  g_koff = 507; break;     /* the last four bytes */
+    case 513:  g_koff = 254; break;     /* across the 256-byte mark */
+    case 1000: g_koff = 501; break;
+    case 4097: g_koff = 4093; break;    /* the last byte of the key is the only byte past 4096 */
+    case 5000: g_koff = 4096; break;
+    default:   g_koff = 0; break;       /* includes 257 */
+    }
+    g_toff = g_koff == 0 ? keybytes(size) : g_koff + 8 <= size ? g_koff + 4 : g_koff - 4;
+}
 static int unique_tags(int size, size_t n)
 {
     int tb = tagbytes(size);
@@ -131,23 +151,25 @@ static const char *Kop(const char *what)
 
 static inline uint32_t get_key(const unsigned char *p, int kb)
 {
+    p += g_koff;
     if (kb == 1) return p[0];
     if (kb == 2) return (uint32_t)p[0] | (uint32_t)p[1] << 8;
     return (uint32_t)p[0] | (uint32_t)p[1] << 8 | (uint32_t)p[2] << 16 | (uint32_t)p[3] << 24;
 }
 static inline uint32_t get_tag(const unsigned char *p, int size)
 {
-    int kb = keybytes(size), tb = tagbytes(size), i;
+    int tb = tagbytes(size), i;
     uint32_t t = 0;
-    for (i = 0; i < tb; i++) t |= (uint32_t)p[kb + i] << (8 * i);
+    for (i = 0; i < tb; i++) t |= (uint32_t)p[g_toff + i] << (8 * i);
     return t;
 }
 static void put_rec(unsigned char *p, int size, uint32_t stored, uint32_t tag)
 {
     int kb = keybytes(size), tb = tagbytes(size), i;
-    for (i = 0; i < kb; i++) p[i] = (unsigned char)(stored >> (8 * i));
-    for (i = 0; i < tb; i++) p[kb + i] = (unsigned char)(tag >> (8 * i));
-    for (i = kb + tb; i < size; i++) p[i] = (unsigned char)(tag * 37u + (uint32_t)i * 101u + 0x5bu);
+    /* every byte of the element depends on the tag (no period of 256 in the offset: blocks must not be interchangeable) */
+    for (i = g_koff ? 0 : kb + tb; i < size; i++) p[i] = (unsigned char)(tag * 37u + (uint32_t)i * 101u + (uint32_t)(i >> 8) * 59u + 0x5bu);
+    for (i = 0; i < kb; i++) p[g_koff + i] = (unsigned char)(stored >> (8 * i));
+    for (i = 0; i < tb; i++) p[g_toff + i] = (unsigned char)(tag >> (8 * i));
 }
 
 /* 0 element of the array, 1 scratch, 2 probe, -1 outside, -2 inside but not on an element boundary */
@@ -226,7 +248,7 @@ static void swap_rec(void *a, void *b, void *t, size_t len)
 
 /* a caller swap with its own scratch: never looks at t (the raw-array entry points are then given
  * tmp == NULL: "scratch space to be used by the swap function", so the library must not touch it) */
-static unsigned char privbuf[64];
+static unsigned char privbuf[5008];
 static void swap_priv(void *a, void *b, void *t, size_t len)
 {
     long ia, ib;
@@ -281,6 +303,7 @@ static void bench_open(struct bench *b, size_t n, int size, int path, size_t cap
 {
     memset(b, 0, sizeof(*b));
     b->n = n; b->size = size; b->path = path; b->cap = n + capextra;
+    set_layout(size);
     b->in = vrt_alloc(n * size);
     b->save = vrt_alloc(n * size);
     b->seen = vrt_alloc(n);
@@ -1003,7 +1026,7 @@ static void sref_run(struct bench *b, int selidx, const uint32_t *keys, const un
 /* ------------------------------------------------------------------ */
 /* case table                                                           */
 /* ------------------------------------------------------------------ */
-enum { C_LARGE, C_EXH, C_TAPE, C_RANDOM, C_SWEEP, C_DEEP, C_SREF };
+enum { C_LARGE, C_EXH, C_TAPE, C_RANDOM, C_SWEEP, C_DEEP, C_SREF, C_NEAR, C_BIG };
 enum { PAT_SORTED, PAT_REVERSED, PAT_CONSTANT, PAT_TWO_RANDOM, PAT_TWO_ALT, PAT_ORGAN, PAT_VALLEY,
        PAT_SAWTOOTH, PAT_ROT1, PAT_RANDOM_TIES,
        /* nearly sorted with local disorder: every partitioning splits evenly (deepest balanced recursion) and the
@@ -1060,6 +1083,20 @@ static void build_cases(void)
         if ((s == S_INLINE && p == P_ARRAY) || s == S_SWEPT) continue;
         memset(&c, 0, sizeof(c));
         c.kind = C_LARGE; c.pat = pat; c.sel = s; c.sizeidx = z; c.path = p;
+        add_case(c);
+    }
+    /* almost sorted inputs: selector x path x group of shapes (0/1: ordered run + short/longer tail, 2: the others) */
+    for (s = 0; s < NSEL; s++) for (p = 0; p < 2; p++) for (n = 0; n < 3; n++) {
+        if ((s == S_INLINE && p == P_ARRAY) || s == S_SWEPT) continue;
+        memset(&c, 0, sizeof(c));
+        c.kind = C_NEAR; c.sel = s; c.path = p; c.A = n;
+        add_case(c);
+    }
+    /* elements past 256 and 4096 bytes: size x selector x path */
+    for (z = NSIZES; z < NALLSIZES; z++) for (s = 0; s < NSEL; s++) for (p = 0; p < 2; p++) {
+        if ((s == S_INLINE && p == P_ARRAY) || s == S_SWEPT) continue;
+        memset(&c, 0, sizeof(c));
+        c.kind = C_BIG; c.sel = s; c.sizeidx = z; c.path = p;
         add_case(c);
     }
     /* exhaustive: the longest lengths alone, the rest lumped */
@@ -1516,6 +1553,251 @@ static void run_sref(const struct cdef *c, uint64_t idx)
 }
 
 /* ------------------------------------------------------------------ */
+/* almost sorted inputs: the shapes a fast path would key on             */
+/* ------------------------------------------------------------------ */
+/*
+ * An ordered run with a few arbitrary elements behind it (1..16; among them a new strict maximum / minimum of everything
+ * before it in 2nd, 3rd or last trailing position, duplicates of the run's maximum, a tail of nothing but new maxima or
+ * minima), a few arbitrary elements in front of it, an ordered run with k positions overwritten, two and three ordered
+ * runs behind each other, an ordered run with one element moved far away; n = 64 .. 5000, every selector, both APIs.
+ * Nothing here is specific to an implementation: these are the inputs "append a few and sort again" produces.
+ */
+enum { NS_TAIL, NS_FRONT, NS_OVERWRITE, NS_RUNS2, NS_RUNS3, NS_MOVED, NNS };
+static const char *const nsname[NNS] = { "ordered-then-few-arbitrary", "few-arbitrary-then-ordered", "ordered-with-k-overwritten",
+                                         "two-ordered-runs", "three-ordered-runs", "ordered-one-moved-far" };
+enum { TV_RANDOM, TV_MAX_2ND, TV_MAX_3RD, TV_MAX_LAST, TV_MIN_2ND, TV_MIN_3RD, TV_MIN_LAST, TV_DUP_MAX, TV_ALL_MAX, TV_ALL_MIN, NTV };
+static const char *const tvname[NTV] = { "arbitrary", "new-maximum-2nd", "new-maximum-3rd", "new-maximum-last", "new-minimum-2nd",
+                                         "new-minimum-3rd", "new-minimum-last", "duplicates-of-maximum", "all-new-maxima", "all-new-minima" };
+static int ns_ctr[NNS], tv_ctr[NTV];
+#define NEAR_MARGIN 20u
+
+/* non-decreasing logical keys over [lo, hi]: 0 evenly spread (strictly increasing where the range allows), 1 with stretches
+ * of equal keys, 2 random steps */
+static void ordered_run(uint32_t *k, size_t m, uint32_t lo, uint32_t hi, int mode, vrt_rng *g)
+{
+    uint32_t span = hi - lo + 1;
+    size_t i;
+    if (mode == 1 && span > m / 3 + 1) span = (uint32_t)(m / 3 + 1);
+    if (mode == 2 && m > 0) {
+        const uint32_t step = (uint32_t)(2 * (uint64_t)span / m) + 1;
+        uint32_t v = lo + vrt_below(g, step);
+        for (i = 0; i < m; i++) { if (v > hi) v = hi; k[i] = v; v += vrt_below(g, step); }
+        return;
+    }
+    for (i = 0; i < m; i++) k[i] = lo + (uint32_t)((uint64_t)i * span / m);
+}
+/* an arbitrary key: equal to an element of the run, inside the run's range, or (wide) just outside it */
+static uint32_t near_arb(vrt_rng *g, const uint32_t *run, size_t m, uint32_t lo, uint32_t hi, int wide)
+{
+    const uint32_t r = vrt_below(g, 8);
+    if (r < 3 && m > 0) return run[vrt_below(g, (uint32_t)m)];
+    if (wide && r == 3) return lo - 1 - vrt_below(g, 8);
+    if (wide && r == 4) return hi + 1 + vrt_below(g, 8);
+    return lo + vrt_below(g, hi - lo + 1);
+}
+static size_t near_boundary(vrt_rng *g, size_t from, size_t to)     /* in [from, to), often close to one of the ends */
+{
+    const size_t w = to - from;
+    const uint32_t r = vrt_below(g, 3);
+    if (w <= 1) return from;
+    if (r == 0) return from + vrt_below(g, w < 16 ? (uint32_t)w : 16);
+    if (r == 1) return to - 1 - vrt_below(g, w < 16 ? (uint32_t)w : 16);
+    return from + vrt_below(g, (uint32_t)w);
+}
+static void near_fill(struct bench *b, int shape, int t, int tv, vrt_rng *g, uint32_t *k)
+{
+    const size_t n = b->n;
+    uint32_t K1 = maxkeys(b->size), lo, hi, mx, mn;
+    const int mode = (int)vrt_below(g, 3);
+    size_t m, i, j, c1, c2;
+    if (K1 > 8 * n + 64) K1 = (uint32_t)(8 * n + 64);
+    lo = NEAR_MARGIN; hi = K1 - 1 - NEAR_MARGIN;
+    switch (shape) {
+    case NS_TAIL:
+        m = n - (size_t)t;
+        ordered_run(k, m, lo, hi, mode, g);
+        mx = k[m - 1]; mn = k[0];
+        for (j = 0; j < (size_t)t; j++) {
+            uint32_t v = near_arb(g, k, m, lo, hi, 0);
+            const size_t want = tv == TV_MAX_2ND || tv == TV_MIN_2ND ? 1 : tv == TV_MAX_3RD || tv == TV_MIN_3RD ? 2 : (size_t)t - 1;
+            const int here = j == (want < (size_t)t ? want : (size_t)t - 1);
+            switch (tv) {
+            case TV_MAX_2ND: case TV_MAX_3RD: case TV_MAX_LAST: if (here) { v = mx + 1 + vrt_below(g, 3); VRT_COUNT("arrays.near-sorted.tail.new-strict-maximum"); } break;
+            case TV_MIN_2ND: case TV_MIN_3RD: case TV_MIN_LAST: if (here) { v = mn - 1 - vrt_below(g, 3); VRT_COUNT("arrays.near-sorted.tail.new-strict-minimum"); } break;
+            case TV_DUP_MAX: if (j + 1 == (size_t)t || vrt_chance(g, 1, 3)) { v = k[m - 1]; VRT_COUNT("arrays.near-sorted.tail.duplicate-of-maximum"); } break;
+            case TV_ALL_MAX: v = mx + 1; break;
+            case TV_ALL_MIN: v = mn - 1; break;
+            default: break;
+            }
+            k[m + j] = v;
+            if (v > mx) mx = v;
+            if (v < mn) mn = v;
+        }
+        vrt_ctr[tv_ctr[tv]]++;
+        if (t <= 8) VRT_COUNT("arrays.near-sorted.tail.len-1-8"); else VRT_COUNT("arrays.near-sorted.tail.len-9-16");
+        break;
+    case NS_FRONT:
+        ordered_run(k + t, n - (size_t)t, lo, hi, mode, g);
+        for (j = 0; j < (size_t)t; j++) k[j] = near_arb(g, k + t, n - (size_t)t, lo, hi, 1);
+        break;
+    case NS_OVERWRITE:
+        ordered_run(k, n, lo, hi, mode, g);
+        for (j = 0; j < (size_t)t; j++) {
+            i = near_boundary(g, 0, n);
+            k[i] = near_arb(g, k, n, lo, hi, 1);
+        }
+        break;
+    case NS_RUNS2: case NS_RUNS3:
+        c1 = near_boundary(g, 1, n);
+        c2 = shape == NS_RUNS3 ? near_boundary(g, c1, n) : n;
+        if (shape == NS_RUNS3 && c2 == c1) c2 = c1 + (n - c1) / 2;
+        for (i = 0; i < 3; i++) {
+            const size_t from = i == 0 ? 0 : i == 1 ? c1 : c2, to = i == 0 ? c1 : i == 1 ? c2 : n;
+            uint32_t l2 = lo, h2 = hi;
+            if (from >= to) continue;
+            if (vrt_chance(g, 1, 2)) { l2 = lo + vrt_below(g, (hi - lo) / 2); h2 = l2 + vrt_below(g, hi - l2 + 1); }
+            ordered_run(k + from, to - from, l2, h2, (int)vrt_below(g, 3), g);
+        }
+        break;
+    default:    /* NS_MOVED: element i of an ordered run goes to position j, at least n/4 away */
+        ordered_run(k, n, lo, hi, mode == 1 ? 0 : mode, g);
+        i = vrt_below(g, (uint32_t)n);
+        j = (i + n / 4 + vrt_below(g, (uint32_t)(n / 2))) % n;
+        if (vrt_chance(g, 1, 4)) { i = vrt_chance(g, 1, 2) ? 0 : n - 1; j = n - 1 - i; }
+        mx = k[i];
+        if (i < j) memmove(k + i, k + i + 1, (j - i) * sizeof(*k)); else memmove(k + j + 1, k + j, (i - j) * sizeof(*k));
+        k[j] = mx;
+        break;
+    }
+    for (i = 0; i < n; i++) { k[i] = 2 * k[i] + 2; put_rec(b->in + i * b->size, b->size, k[i], (uint32_t)i); }
+    vrt_ctr[ns_ctr[shape]]++;
+}
+
+static size_t near_n(vrt_rng *g, int quadratic, int biggest)
+{
+    static const size_t edge[] = { 64, 65, 100, 128, 255, 256, 257, 512, 1000, 1024, 2048, 4095, 4096, 4097, 5000 };
+    uint32_t r = vrt_below(g, 16);
+    size_t n;
+    if (biggest) n = 4096 + vrt_below(g, 905);
+    else if (quadratic) n = r < 12 ? 64 + vrt_below(g, 192) : r < 15 ? 256 + vrt_below(g, 768) : 1024 + vrt_below(g, 1024);
+    else n = r < 8 ? 64 + vrt_below(g, 192) : r < 12 ? 256 + vrt_below(g, 768) : r < 15 ? 1024 + vrt_below(g, 3072) : 4096 + vrt_below(g, 905);
+    if (vrt_chance(g, 1, 4)) {      /* the nearest round length */
+        size_t e, best = edge[0];
+        for (e = 0; e < sizeof(edge) / sizeof(edge[0]); e++) if (edge[e] <= n) best = edge[e];
+        n = best;
+    }
+    return n;
+}
+
+static void run_near_one(const struct cdef *c, uint64_t idx, uint32_t serial, int shape, int t, int tv, vrt_rng *g, int biggest)
+{
+    /* the plain quicksort (first element as the pivot) is quadratic on every one of these shapes */
+    const int quadratic = c->sel == S_QUICK;
+    static const int zs[] = { 2, 3, 5, 6, 7, 3, 6, 0, 1, 4, 8, 9 };       /* mostly 16/32-bit keys; the 1-byte keys give runs full of ties */
+    const int z = zs[vrt_below(g, 12)];
+    size_t n = near_n(g, quadratic, biggest);
+    struct bench b;
+    uint32_t *keys, pr[MAXPROBES];
+    int np, i;
+    if (SIZES[z] > 256 && n > 600) n = 64 + n % 512;      /* the big elements with fewer of them */
+    bench_open(&b, n, SIZES[z], c->path, capextra_for(n + serial, c->sel));
+    keys = vrt_alloc((n + 1) * sizeof(*keys));
+    near_fill(&b, shape, t, tv, g, keys);
+    np = large_probes(&b, keys, g, pr);
+    tape_n = (int)vrt_below(g, 3);
+    for (i = 0; i < tape_n; i++) tape[i] = vrt_chance(g, 1, 2) ? (int)n - 1 - (int)vrt_below(g, 17) : (int)vrt_below(g, (uint32_t)n);
+    vrt_rng_seed(&rand_rng, vrt_seed, vrt_mix(idx, serial));
+    X.style = (int)vrt_below(g, 2);
+    /* probes: smallest and largest key and their absent neighbours, first and last input key */
+    run_array(&b, c->sel, pr + 2, np >= 8 ? 6 : np - 2, F_SEARCH | F_SIG | F_LOC_ONE | ((serial & 7) == 0 ? F_REVERSE : 0),
+              0xE000000u | (uint64_t)shape << 16 | (uint64_t)tv << 8 | (uint64_t)t, (uint64_t)tape_n);
+    vrt_free(keys);
+    bench_close(&b);
+    vrt_ctr[size_ctr[z]]++;
+    VRT_COUNT("arrays.near-sorted");
+    if (n < 256) VRT_COUNT("arrays.near-sorted.n-0064-0255"); else if (n < 1024) VRT_COUNT("arrays.near-sorted.n-0256-1023");
+    else if (n < 4096) VRT_COUNT("arrays.near-sorted.n-1024-4095"); else VRT_COUNT("arrays.near-sorted.n-4096-5000");
+}
+
+/* c->A: 0 tails of 1..8, 1 tails of 9..16, 2 the other shapes */
+static void run_near(const struct cdef *c, uint64_t idx)
+{
+    const int rounds = vrt_thorough ? 4 : 1;
+    uint32_t serial = 0;
+    vrt_rng g;
+    int r, t, tv, k;
+    vrt_rng_seed(&g, vrt_seed, 0xC11E000 + idx);
+    vrt_case_note("almost sorted inputs (%s) sel=%s(%ld) path=%s, n = 64 .. 5000, element size varies",
+                  c->A == 0 ? "ordered run + 1..8 arbitrary elements" : c->A == 1 ? "ordered run + 9..16 arbitrary elements"
+                  : "arbitrary elements in front, k overwritten, 2/3 runs, one moved far", selname[c->sel], selval[c->sel], pathname[c->path]);
+    for (r = 0; r < rounds; r++) {
+        if (c->A < 2) {
+            for (t = 1 + 8 * c->A; t <= 8 + 8 * c->A; t++) for (tv = 0; tv < NTV; tv++)
+                run_near_one(c, idx, serial++, NS_TAIL, t, tv, &g, r == 0 && t == 3 + 8 * c->A && tv == (int)((idx + vrt_seed) % NTV));
+        } else {
+            for (k = 1; k <= 8; k++) {
+                run_near_one(c, idx, serial++, NS_FRONT, k, 0, &g, r == 0 && k == 2);
+                run_near_one(c, idx, serial++, NS_OVERWRITE, k, 0, &g, r == 0 && k == 3);
+                run_near_one(c, idx, serial++, NS_MOVED, 0, 0, &g, 0);
+                if (k & 1) run_near_one(c, idx, serial++, NS_RUNS2, 0, 0, &g, r == 0 && k == 5);
+                else run_near_one(c, idx, serial++, NS_RUNS3, 0, 0, &g, 0);
+            }
+        }
+    }
+}
+
+/* ------------------------------------------------------------------ */
+/* elements past 256 and past 4096 bytes                                */
+/* ------------------------------------------------------------------ */
+/*
+ * Few elements, every selector, both APIs, full set of probes, reverse: the record carries its tag in every byte, the
+ * key sits at an odd offset / at the end / on the 256- and 4096-byte marks (set_layout), the permutation oracle compares
+ * whole elements, the shadow follows the caller's swap calls.  The vector's block must have room for exactly one scratch
+ * slot of the element's size behind its capacity (bench_open), whatever the element size.
+ */
+static void run_big(const struct cdef *c, uint64_t idx)
+{
+    static const int pats[] = { PAT_RANDOM_TIES, PAT_SORTED, PAT_REVERSED, PAT_ORGAN, PAT_ROT1, PAT_TWO_RANDOM, PAT_PAIRS_SWAPPED };
+    const int size = SIZES[c->sizeidx], nmaxx = size > 4096 ? 16 : 32;
+    const int ALLF = F_PREFIND | F_SEARCH | F_REVERSE | F_SIG | F_LOC_LARGE;
+    size_t ns[7];
+    vrt_rng g;
+    int a, i;
+    vrt_rng_seed(&g, vrt_seed, 0xC11F000 + idx);
+    vrt_case_note("big elements: size=%d (key at offset %d) sel=%s(%ld) path=%s", size, (set_layout(size), g_koff),
+                  selname[c->sel], selval[c->sel], pathname[c->path]);
+    ns[0] = vrt_below(&g, 2); ns[1] = 2; ns[2] = 3; ns[3] = 4 + vrt_below(&g, 5); ns[4] = 9 + vrt_below(&g, 8);
+    ns[5] = 17 + vrt_below(&g, 16); ns[6] = 33 + vrt_below(&g, (uint32_t)nmaxx);
+    for (a = 0; a < 7; a++) {
+        struct bench b;
+        const size_t n = ns[a];
+        uint32_t *keys, pr[MAXPROBES];
+        int np;
+        bench_open(&b, n, size, c->path, capextra_for(n + (size_t)a, c->sel));
+        keys = vrt_alloc((n + 1) * sizeof(*keys));
+        if (a & 1) fill_pattern(&b, pats[vrt_below(&g, 7)], &g, keys);
+        else {
+            const uint32_t A = vrt_chance(&g, 1, 2) ? (uint32_t)n + 1 : 3;
+            size_t j;
+            for (j = 0; j < n; j++) { keys[j] = 2 * vrt_below(&g, A) + 2; put_rec(b.in + j * (size_t)size, size, keys[j], (uint32_t)j); }
+        }
+        np = large_probes(&b, keys, &g, pr);
+        tape_n = (int)vrt_below(&g, 3);
+        for (i = 0; i < tape_n; i++) tape[i] = vrt_chance(&g, 1, 2) ? (n > 0 ? (int)n - 1 : 0) : (int)vrt_below(&g, (uint32_t)n + 1);
+        vrt_rng_seed(&rand_rng, vrt_seed, vrt_mix(idx, (uint64_t)a));
+        X.style = (int)vrt_below(&g, 2);
+        run_array(&b, c->sel, pr, np, ALLF, 0xD000 + (uint64_t)a, (uint64_t)tape_n);
+        vrt_free(keys);
+        bench_close(&b);
+        vrt_ctr[size_ctr[c->sizeidx]]++;
+        VRT_COUNT("arrays.big-elements");
+        if (c->path == P_VECTOR) { if (size > 4096) VRT_COUNT("arrays.big-elements.vector.gt-4096"); else VRT_COUNT("arrays.big-elements.vector.gt-256"); }
+        else { if (size > 4096) VRT_COUNT("arrays.big-elements.array.gt-4096"); else VRT_COUNT("arrays.big-elements.array.gt-256"); }
+        if (g_koff != 0) VRT_COUNT("arrays.big-elements.key-not-at-offset-0");
+    }
+}
+
+/* ------------------------------------------------------------------ */
 static uint64_t ncases(void)
 {
     build_cases();
@@ -1535,6 +1817,8 @@ static void run_case(uint64_t idx)
     case C_TAPE:   run_tape(c, idx); break;
     case C_SWEEP:  run_sweep(c, idx); break;
     case C_SREF:   run_sref(c, idx); break;
+    case C_NEAR:   run_near(c, idx); break;
+    case C_BIG:    run_big(c, idx); break;
     default:       run_random(c, idx); break;
     }
     nomem_case = 0;
@@ -1548,7 +1832,7 @@ static void winit(void)
     vrt_sig_name(0, "selector-size-input-triples");
     build_cases();
     for (i = 0; i < NSEL; i++) { snprintf(nm, sizeof(nm), "sort.selector.%s", selname[i]); sel_ctr[i] = vrt_counter_id(nm); }
-    for (i = 0; i < NSIZES; i++) { snprintf(nm, sizeof(nm), "arrays.element-size.%02d", SIZES[i]); size_ctr[i] = vrt_counter_id(nm); }
+    for (i = 0; i < NALLSIZES; i++) { snprintf(nm, sizeof(nm), "arrays.element-size.%02d", SIZES[i]); size_ctr[i] = vrt_counter_id(nm); }
     for (i = 0; i < NPAT; i++) { snprintf(nm, sizeof(nm), "arrays.large.%s", patname[i]); pat_ctr[i] = vrt_counter_id(nm); }
     for (i = 0; i < NPL; i++) {
         int s;
@@ -1557,6 +1841,8 @@ static void winit(void)
             snprintf(nm, sizeof(nm), "%s.%s.absent", s ? "search" : "find", plname[i]); pl_absent_ctr[i][s] = vrt_counter_id(nm);
         }
     }
+    for (i = 0; i < NNS; i++) { snprintf(nm, sizeof(nm), "arrays.near-sorted.%s", nsname[i]); ns_ctr[i] = vrt_counter_id(nm); }
+    for (i = 0; i < NTV; i++) { snprintf(nm, sizeof(nm), "arrays.near-sorted.tail.%s", tvname[i]); tv_ctr[i] = vrt_counter_id(nm); }
     pl_lower_ctr = vrt_counter_id("find.probe-in-array.first-match-at-lower-index");
     pl_other_ctr = vrt_counter_id("search.probe-in-array.answer-is-another-index");
     pl_sref_ctr = vrt_counter_id("selfref.probes");
@@ -1590,6 +1876,19 @@ static const char *const required[] = {
     "selfref.sort.verified", "selfref.sort.array-path", "selfref.sort.vector-path", "selfref.sort.null-scratch-with-private-swap",
     "selfref.elements.inline-key", "selfref.elements.external-key", "selfref.cmp.calls", "selfref.swap.calls",
     "selfref.search.verified", "selfref.reverse.verified", "selfref.probes", "selfref.arrays.exhaustive", "selfref.arrays.patterns",
+    "arrays.near-sorted", "arrays.near-sorted.ordered-then-few-arbitrary", "arrays.near-sorted.few-arbitrary-then-ordered",
+    "arrays.near-sorted.ordered-with-k-overwritten", "arrays.near-sorted.two-ordered-runs", "arrays.near-sorted.three-ordered-runs",
+    "arrays.near-sorted.ordered-one-moved-far", "arrays.near-sorted.tail.len-1-8", "arrays.near-sorted.tail.len-9-16",
+    "arrays.near-sorted.tail.arbitrary", "arrays.near-sorted.tail.new-maximum-2nd", "arrays.near-sorted.tail.new-maximum-3rd",
+    "arrays.near-sorted.tail.new-maximum-last", "arrays.near-sorted.tail.new-minimum-2nd", "arrays.near-sorted.tail.new-minimum-3rd",
+    "arrays.near-sorted.tail.new-minimum-last", "arrays.near-sorted.tail.duplicates-of-maximum", "arrays.near-sorted.tail.all-new-maxima",
+    "arrays.near-sorted.tail.all-new-minima", "arrays.near-sorted.tail.new-strict-maximum", "arrays.near-sorted.tail.new-strict-minimum",
+    "arrays.near-sorted.tail.duplicate-of-maximum",
+    "arrays.near-sorted.n-0064-0255", "arrays.near-sorted.n-0256-1023", "arrays.near-sorted.n-1024-4095", "arrays.near-sorted.n-4096-5000",
+    "arrays.element-size.257", "arrays.element-size.300", "arrays.element-size.511", "arrays.element-size.513",
+    "arrays.element-size.1000", "arrays.element-size.4097", "arrays.element-size.5000",
+    "arrays.big-elements", "arrays.big-elements.array.gt-256", "arrays.big-elements.array.gt-4096",
+    "arrays.big-elements.vector.gt-256", "arrays.big-elements.vector.gt-4096", "arrays.big-elements.key-not-at-offset-0",
     "reverse.verified", "reverse.count-0", "reverse.count-1", "reverse.count-odd", "reverse.count-even",
     NULL
 };
